@@ -48,6 +48,8 @@ int fb_main(int argc, char** argv, fb_root_fn root);
 // spawn helper: creates slot + fiber running fn(slot)
 fb_slot_t* fb_spawn(void* (*fn)(void*), void* arg);
 void fb_join_all(fb_slot_t** s, int n);
+// the spawner is done with the slot (fiber joined): it may be recycled
+void fb_slot_release(fb_slot_t* s);
 
 // number of hook hits of 'point' on the calling kernel thread
 long vp_thread_hits(int point);
